@@ -70,10 +70,14 @@ theorem ifft2_dim_ok_eq (d : Int) : ifft2_dim_ok d = dimOk d := by
 /-- `verify_fft_dtype_possible` (single precision only; real float32 only for power-of-two lengths) -/
 theorem verify_fft_dtype_possible_eq (dt : DType) (lens : List Nat) :
     verify_fft_dtype_possible (dt == .complex64) (dt == .float32) (lens.all is_power_of_two) = dtypeOk dt lens := by
-  have : is_power_of_two = isPow2 := by
+  have hp : is_power_of_two = isPow2 := by
     funext n; simp only [is_power_of_two, isPow2]
-  rw [this]; rfl
-
+  rw [hp]
+  -- whatever decision tree the source spells, it is a Boolean function of three inputs: compare by cases
+  -- (complex64 and float32 are different dtypes, so the (true, true) row cannot occur)
+  unfold dtypeOk
+  generalize lens.all isPow2 = p
+  cases dt <;> cases p <;> first | rfl | decide
 
 /-! ### phase 3: re-implementations, purity of the anchored functions, call sites -/
 
